@@ -14,7 +14,7 @@ layer (HashCode) is the order of checks of the code with the error class.
         hash and extraction for `want` verifies for `want`).  Deviating designs (no verification; any
         stored header) must produce counterexamples.
   ->B:  Gen_Multihasher prints every (store state, block) with the demanded results; h-shrex builds real
-        squares / headers / InMemoryStore / containers / CIDs / protobuf blocks at widths 4..32 (block
+        squares / headers / InMemoryStore / containers / CIDs / protobuf blocks at widths 4..128 (block
         scaling of the abstract coordinates), drives the real ShwapMultihasher::hash and
         get_block_container through the hooks and compares.  A panic is a violation.
 The multihasher itself is stateless (the store is only read): no impl->spec trace direction.
@@ -36,7 +36,7 @@ ENTRIES = {
                 "truncated, other codec, other multihash code, other digest size, height 0) and malformed blocks. "
                 "TLC checks the design of the hasher against the statement in every store state and generates the "
                 "cases; h-shrex replays each on the real multihasher with a real InMemoryStore and real data at widths "
-                "4-16 (thorough 4-64), and each block on get_block_container against the CID the node asked for.",
+                "4-32 (thorough 4-128), and each block on get_block_container against the CID the node asked for.",
         "design_ref": "7 C10",
         "note": "Trusts collision-freeness of the hashes (an unaltered container verifies exactly for its own place in "
                 "its own square). Error classes (unknown code vs fatal) are drift only; the statement only says "
@@ -54,26 +54,30 @@ def run(ck):
     hb = ck.build("h-shrex")
     mc = ck.cfg_with("MC_Multihasher.cfg", {}, name="MC_Multihasher.cfg")
     ck.tlc_mc("MC_Multihasher", mc, required_actions=["Insert", "Hash"], workers=4)
-    for dev in ("noverify", "nolookup"):
+    for dev in (("noverify",) if ck.quick else ("noverify", "nolookup")):
         cfg = ck.cfg_with("MC_Multihasher.cfg", {"Dev": f'"{dev}"'}, name=f"MC_Multihasher_{dev}.cfg")
         r = ck.tlc_mc("MC_Multihasher", cfg, tag=f"mc_{dev}", expect_violation="CodeMeetsDemand", workers=1)
         if not r.get("expected_violation_reproduced"):
             raise vf.ToolError(f"model insensitive: deviation {dev} does not violate CodeMeetsDemand")
     gen = ck.cfg_with("Gen_Multihasher.cfg", {}, name="Gen_Multihasher.cfg")
     cases, n = ck.tlc_gen("Gen_Multihasher", gen, "cases.ndjson", count_stats=False)
-    widths = "4,8,16" if ck.quick else "4,8,16,32,64"
+    widths = "4,8,16,32" if ck.quick else "4,8,16,32,64,128"
     args = ["replay", "multihasher", cases, "--seed", ck.seed, "--widths", widths]
-    if ck.quick:
-        args += ["--scale", "rnd"]
     s = ck.harness(hb, args, "replay")
     ck.absorb(s, classify)
+    # extra coverage riding on the same cases (node shrex codecs for Sample / Row, node CID helpers); not a
+    # claim of this property: reported, never part of the verdict
+    for v in s.get("violations", []):
+        if str(v.get("property", "")).startswith("x-"):
+            vf.log(f"EXTRA-FINDING: {v.get('property')} {v.get('why', '')[:300]}")
     out = s.get("extra", {}).get("outcomes", {})
-    for need in ("hash:ok", "hash:unknown-code", "hash:fatal", "extract:ok", "extract:err"):
-        if not out.get(need):
-            raise vf.ToolError(f"vacuity: outcome {need} never observed")
+    if not ck.violations and not ck.known_hits:  # (a violating tree may well lack an outcome class)
+        for need in ("hash:ok", "hash:unknown-code", "hash:fatal", "extract:ok", "extract:err"):
+            if not out.get(need):
+                raise vf.ToolError(f"vacuity: outcome {need} never observed")
     ck.cov["exhaustive"] = True
     ck.cov["rule"] = ("every (store state, block) generated by TLC, replayed at widths " + widths + " under the "
-                      + ("random" if ck.quick else "lowest / highest / random") + " member of each abstract coordinate "
+                      + "lowest / highest / random member of each abstract coordinate "
                       "block; non-trivial = distinct (width, scale, store state, block) for hash plus distinct (width, "
                       "scale, block) for get_block_container; a case is one call of the real function")
     ck.assumptions += ["hash functions are collision-free (an unaltered container verifies exactly for its own place in "
